@@ -326,6 +326,40 @@ def genvariant(files):
     print(n, 'variant mutants')
 
 
+def gennarrow(files):
+    """seventh operator family: every guard narrowed by an opaque extra conjunct (`if c {` -> `if c && black_box(true) {`).
+    At run time nothing changes; statically the guarded action has become conditional on something unknown. A rule that demands a
+    necessary action on EVERY path satisfying its precondition reports it; an unreported mutant whose guarded action is necessary
+    shows a rule that only constrains the paths on which the action happens (the C16h / C08g kind of hole)."""
+    os.makedirs(OUT, exist_ok=True)
+    have = {m['id'] for m in load('mutants.jsonl')}
+    n = 0
+    skip = ('debug_assert', 'tracing::', 'metrics', 'histogram!', 'counter!', 'trace!', 'debug!', 'panic!', 'assert!')
+    with open(os.path.join(OUT, 'mutants.jsonl'), 'a') as out:
+        for rel in files:
+            p = os.path.join(core.REPO, rel)
+            if not os.path.exists(p):
+                continue
+            src, end = production_lines(p)
+            for i in range(end):
+                l = src[i]
+                code = l.split('//')[0]
+                t = code.strip()
+                if not t or any(k in t for k in skip):
+                    continue
+                m = re.match(r'^(\s*(?:\} else )?if )(.+)( \{)\s*$', code)
+                if not m or '||' in m.group(2):
+                    continue
+                mid = f'{rel}:{i+1}:narrow'
+                if mid in have:
+                    continue
+                have.add(mid)
+                out.write(json.dumps(dict(id=mid, file=rel, line=i + 1, op='guard narrowed by an opaque conjunct', old=l,
+                                          new=m.group(1) + m.group(2) + ' && std::hint::black_box(true)' + m.group(3))) + '\n')
+                n += 1
+    print(n, 'narrowed-guard mutants')
+
+
 ALL_RULES = None
 
 
@@ -539,6 +573,8 @@ if __name__ == '__main__':
     limit = int(a[a.index('--limit') + 1]) if '--limit' in a else 0
     if cmd == 'gen':
         gen([x for x in a[1:] if x.startswith('src/')] or FILES)
+    elif cmd == 'gennarrow':
+        gennarrow([x for x in a[1:] if x.startswith('src/')] or FILES)
     elif cmd == 'genvariant':
         genvariant([x for x in a[1:] if x.startswith('src/')] or FILES)
     elif cmd == 'genflow':
